@@ -225,6 +225,10 @@ def lit_value(body):
     return "".join(out)
 
 
+def py_looks_quoted(s):
+    return s.startswith("<<") and s.endswith(">>")
+
+
 def py_unstable(s):
     t = s
     while t and t[0] in WS:
@@ -293,9 +297,9 @@ def gen_lit(rng, clean=True, plain_only=False):
         elif r < 0.4:
             suf = ("dt", rng.choice(DTS))
     t = ("lit", body, suf)
-    if clean and py_unstable(lit_lex(t)):
-        # keep the value outside the re-cleaning class: wrap it in letters
-        t = ("lit", [("p", "v")] + body + ([("p", "w")] if suf is None or suf[0] == "dt" else []), suf)
+    if clean and py_looks_quoted(lit_lex(t)):
+        # keep the value outside the residual re-cleaning class (a value that looks like a quoted triple)
+        t = ("lit", [("p", "v")] + body, suf)
     return t
 
 
@@ -343,8 +347,10 @@ def gen_nt_stmt(rng, V, quads, p_unclean=0.03, p_quoted=0.04):
         o = gen_iri(rng, V)
     elif r < 0.58:
         o = gen_bnode(rng, V)
+    elif rng.random() < p_unclean:
+        o = ("lit", [("p", c) for c in rng.choice(["<<x y z>>", "<< <http://e/a> <http://e/b> <http://e/c> >>", "<<>>"])], None)
     else:
-        o = gen_lit(rng, clean=rng.random() >= p_unclean)
+        o = gen_lit(rng, clean=True)
     g = None
     if quads and rng.random() < 0.6:
         g = rng.choice([("iri", "http://g/%d" % rng.randrange(3)), ("bn", "g%d" % rng.randrange(2)), gen_iri(rng, V)])
@@ -554,7 +560,7 @@ def show(den, limit=6):
 KNOWN = {
     "C13-n3-nonempty-dictionary": "parse_n3 into a database whose dictionary is not empty: the chunk's local ids are inserted as if they were ids of the receiving dictionary",
     "C13-n3-multichunk": "parse_n3 of a document of more than 1000 lines: each chunk has its own dictionary and prefix table",
-    "C13-literal-recleaned": "N-Triples/N-Quads literal whose VALUE is cleaned a second time by encode_term_star (trimmed / unquoted / <> stripped)",
+    "C13-literal-recleaned": "a literal VALUE that looks like a quoted triple is parsed as one (N-Triples/N-Quads); Turtle statements with a quoted triple re-clean their literals",
     "C13-n3-literal-quoted": "parse_n3 stores a literal together with its quotes (and datatype), unlike the other loaders",
     "C13-n3-hash-in-term": "parse_n3 cuts every line at the first '#', also inside an IRI or a literal",
 }
